@@ -19,6 +19,8 @@ EXPLANATION = ('CFG dominance rules on randomx_calculate_hash/_next/_last in con
                'disassembly scan of the hand-written x86 runtime for ldmxcsr.'
          ' X86-CFR-BITS, RACE-GLOBALS.')
 
+EXPLANATION += ' DRV-FPENV also on the fenv build (K1); feupdateenv is not a restore.'
+
 
 def run(ctx, R):
     F = astq.Facts(ctx, 'K0')
